@@ -203,6 +203,26 @@ CLAIMS = {
    design="4 C20"),
 }
 
+# clauses added after the independently seeded rounds (DESIGN 3.9); appended to the claim text
+EXTRA = {
+ 'C01': " Also: the positions descriptor stores a private copy (L4 own-copy, alias RET summary) and every bare number taken from theta is converted to a stated unit first (UNIT).",
+ 'C03': " The shape half-extent normal forms (shared with C01) and pair-inferred x/y twins of T-MIRROR are included.",
+ 'C06': " The final relabel step is conditioned on `relabel` alone (GUARD-ONLY).",
+ 'C07': " The moment cutouts zero their own non-finite/negative pixels, other labels and the input mask (mask-term rule over the resolved loop sources).",
+ 'C08': " CACHE-PURE: no method modifies a cached property value in place (alias summaries); LP1c: no per-source local survives a swallowed exception.",
+ 'C10': " `x <<= unit` on a bare parameter without a dominating not-a-Quantity guard is a sink; conditional exemptions are re-validated on every run.",
+ 'C11': " SCALE (no absolute tolerance in the estimators/interpolators), GUARD-ONLY (clip depends on `clip` alone) and the selective-filter selection from the background mesh are decided as well.",
+ 'C12': " USERCOL is a truth-table entailment (guard and 'column supplied' unsatisfiable); an order typestate proves that only id-ordered values are published by _parse_fit_results.",
+ 'C13': " The ImagePSF bounding box normal form (centre minus origin, per-axis oversampling) is compared too.",
+ 'C14': " AXIS-DISPATCH: after the per-axis dispatch of the marginal fit no fixed-axis quantity is used; the kernel quadratic form (counter-clockwise theta) is compared as a normal form.",
+ 'C15': " UNIT-LAST: once units are attached to a local no bare value is stored into it (41 functions).",
+ 'C18': " WHO/MUST-PASS: only the cutouts wrapper calls astropy overlap_slices, and it converts the shape to a tuple first.",
+ 'C19': " LATE-UPDATE (mask complete before it is merged), SCALE (no absolute tolerance in the monotonicity test), NONFINITE and FWD over the profile and aperture modules are included.",
+ 'C20': " T-SLOT: every literal fix-flag array is in the order of fitter._CORRECTORS; the model's angular step and paired bilinear deposits are compared.",
+}
+for _k, _v in EXTRA.items():
+    CLAIMS[_k]['text'] += _v
+    CLAIMS[_k]['note'] += " Thorough tier additionally replays the stored seeded changes of this property in memory (DESIGN 2.2)."
 fix_commits = subprocess.run(['git', '-C', '/repo', 'log', '--format=%h %s', '8203d59..HEAD'],
                              capture_output=True, text=True).stdout.strip().splitlines()
 m = {
